@@ -564,6 +564,57 @@ func c10LinkRace(ev *vlib.Evidence, driver string, s store.Store, idx int) {
 	}
 }
 
+// c10NodeRace: a node re-registers (SetNode) while its own keep-alives
+// (UpdateNodePeers) are in flight. A keep-alive only touches LastSeen and the
+// block number, so at quiescence the record must carry the last registration.
+func c10NodeRace(ev *vlib.Evidence, driver string, s store.Store, idx int) {
+	r := vlib.Rand("C10-node-"+driver, idx)
+	id := store.NodeID(fmt.Sprintf("nr%d", idx))
+	s.SetNode(store.Node{ID: id, IsHost: true, Kind: "geth", Payout: "0xP", URI: "enode://x@1.2.3.4:1", NodeVersion: "v1", LastSeen: time.Now()})
+	var wg sync.WaitGroup
+	stop := make(chan struct{})
+	for g := 0; g < 2; g++ {
+		wg.Add(1)
+		go func(g int) {
+			defer wg.Done()
+			for k := 0; ; k++ {
+				select {
+				case <-stop:
+					return
+				default:
+				}
+				s.UpdateNodePeers(id, nil, uint64(1000*g+k))
+			}
+		}(g)
+	}
+	var last store.Node
+	for k := 0; k < 6+r.Intn(10); k++ {
+		last = store.Node{ID: id, LastSeen: time.Now()}
+		if k%2 == 0 {
+			// fields going back to their zero values are the interesting direction
+			last.IsHost, last.Kind, last.Payout, last.URI, last.NodeVersion = false, "", "", "", ""
+		} else {
+			last.IsHost, last.Kind, last.Payout, last.URI, last.NodeVersion = true, "parity", "0xQ", "enode://y@5.6.7.8:2", "v2"
+		}
+		s.SetNode(last)
+		if r.Intn(2) == 0 {
+			time.Sleep(time.Duration(r.Intn(100)) * time.Microsecond)
+		}
+	}
+	close(stop)
+	wg.Wait()
+	got, err := s.GetNode(id)
+	ev.Case(fmt.Sprintf("node-race %s idx=%d", driver, idx), true)
+	ev.Count("node-race-rounds", 1)
+	if err != nil || got.IsHost != last.IsHost || got.Kind != last.Kind || got.Payout != last.Payout || got.URI != last.URI || got.NodeVersion != last.NodeVersion {
+		g := "error: " + fmt.Sprint(err)
+		if err == nil {
+			g = vlib.NodeFields(*got)
+		}
+		ev.Defer("node-race:"+driver+":registration-reverted-by-keepalive", map[string]interface{}{"last_registration": vlib.NodeFields(last), "stored": g})
+	}
+}
+
 // c10Child runs all concurrent workloads in a child process whose race
 // detector log is parsed by the parent.
 func c10Child() int {
@@ -581,6 +632,9 @@ func c10Child() int {
 		}
 		for i := 0; i < vlib.Scale(150, 4000); i++ {
 			c10LinkRace(ev, driver, s, i)
+		}
+		for i := 0; i < vlib.Scale(60, 1500); i++ {
+			c10NodeRace(ev, driver, s, i)
 		}
 		cleanup()
 		for _, tr := range []string{"local", "remote", "tcp", "http"} {
@@ -608,7 +662,7 @@ func c10Child() int {
 
 func TestC10(t *testing.T) {
 	ev := vlib.NewEvidence("C10", "exploration",
-		"child process under the Go race detector (built with math_big_pure_go so big.Int digit writes are visible; reports collected with halt_on_error=0 and de-duplicated by the pair of innermost repository frames) running: (2) store histories of 6..16 goroutines on 2-4 keys (unique power-of-two balance deltas, reads, nonces, node registers) recorded at the API boundary and checked with porcupine per key, on both drivers; (3) pool rounds of 4..15 clients updating concurrently against shared hosts over Local, in-memory Remote, TCP Remote and HTTP, with per-host credit compared to the sum of individually acknowledged charges, zero-sum, client balance = last acknowledged reply, no conflict errors; (2b) link races: credits to a node racing with AddAccountNode must all end up on the wallet; (4) snapshot immutability: values handed out by the stores are deep-hashed (incl. big.Int words) and re-hashed after later writes while a reader keeps re-reading them; plus the concurrent workloads of C01/C05/C07/C09/C14; non-trivial: overlapping same-key operations / more acknowledged updates than clients / >4 snapshots; distinct = case descriptors")
+		"child process under the Go race detector (built with math_big_pure_go so big.Int digit writes are visible; reports collected with halt_on_error=0 and de-duplicated by the pair of innermost repository frames) running: (2) store histories of 6..16 goroutines on 2-4 keys (unique power-of-two balance deltas, reads, nonces, node registers) recorded at the API boundary and checked with porcupine per key, on both drivers; (3) pool rounds of 4..15 clients updating concurrently against shared hosts over Local, in-memory Remote, TCP Remote and HTTP, with per-host credit compared to the sum of individually acknowledged charges, zero-sum, client balance = last acknowledged reply, no conflict errors; (2c) registration races: SetNode racing the node's own keep-alives must win field by field; (2b) link races: credits to a node racing with AddAccountNode must all end up on the wallet; (4) snapshot immutability: values handed out by the stores are deep-hashed (incl. big.Int words) and re-hashed after later writes while a reader keeps re-reading them; plus the concurrent workloads of C01/C05/C07/C09/C14; non-trivial: overlapping same-key operations / more acknowledged updates than clients / >4 snapshots; distinct = case descriptors")
 	ev.Assume("one production-clock world in two leaves payPerInterval's clock unset so the lazy initialisation is on the path")
 	// sequential snapshot pass in this process (a mutated snapshot is reported
 	// even if the concurrent readers of the child crash on it)
